@@ -122,7 +122,7 @@ def saved_doc(obj):
 # ---------------------------------------------------------------------------------------------
 # (a) clip evaluation arrangements
 
-MUTS = ["drop", "dup", "foreign_target", "foreign_source", "split", "both_null_extra", "swap_sides_none", "merge"]
+MUTS = ["drop", "dup", "foreign_target", "foreign_source", "split", "both_null_extra", "swap_sides_none", "merge", "dup_and_drop", "dup_and_drop"]
 
 
 @st.composite
@@ -171,6 +171,12 @@ def check_ce(spec, ctx):
             arr.pop(pick % len(arr)); applied.append(mu)
         elif mu == "dup" and arr:
             arr.append(list(arr[pick % len(arr)])); applied.append(mu)
+        elif mu == "dup_and_drop" and len(arr) >= 2:
+            # one event mentioned twice while another is mentioned by no match: every count still agrees
+            i = pick % len(arr)
+            j = (i + 1 + pick // 3) % len(arr)
+            if j != i:
+                arr[j] = list(arr[i]); applied.append(mu)
         elif mu == "foreign_target":
             arr.append([None, "F"]); applied.append(mu)
         elif mu == "foreign_source":
